@@ -16,7 +16,7 @@ import (
 // at an arbitrary point (critical hook at before_STOP_ACTIVITY-1 / +1 or leave_RUNNING+1, or the task part) and
 // left the environment RUNNING with, depending on the point, the end-of-run stamp already set. Whatever the
 // history, when the environment is DONE both end stamps are set, once, and the four stamps are ordered.
-//verif:entry HarnessTeardownWhileRunning unwind=96 preempt=0 timers=lazy reach=straight,after-failed-stop stub=github.com/AliceO2Group/Control/common/utils.TimeTrack nosched=github.com/AliceO2Group/Control/core/the.mu steps=8000000
+//verif:entry HarnessTeardownWhileRunning unwind=96 conform=12 preempt=0 timers=lazy reach=straight,after-failed-stop stub=github.com/AliceO2Group/Control/common/utils.TimeTrack nosched=github.com/AliceO2Group/Control/core/the.mu steps=8000000
 func HarnessTeardownWhileRunning() {
 	events := make(chan event.Event, 16)
 	var world *task.VerifWorld
